@@ -14,6 +14,7 @@
 package listener
 
 import (
+	"io"
 	"net"
 	"time"
 )
@@ -28,6 +29,12 @@ type DummyUDPConn struct {
 }
 
 func (dc *DummyUDPConn) Read(b []byte) (int, error) {
+	// a datagram is all there will ever be: once it has been consumed, report the end
+	// (returning (0, nil) forever makes io.Copy, io.ReadFull and friends spin)
+	if len(dc.Buffer) == 0 {
+		return 0, io.EOF
+	}
+
 	n := copy(b, dc.Buffer)
 	dc.Buffer = dc.Buffer[n:]
 	return n, nil
